@@ -15,6 +15,7 @@ mod par;
 mod props;
 mod refmodel;
 mod seam;
+mod statref;
 mod subject;
 mod verdict;
 
